@@ -41,10 +41,30 @@ bool build_check(const std::string& prop, const std::string& tier, CheckSpec& s,
         s.rule = "case = one delivery of a marshalled object through the simulated store: (object kind, form, validating?, slot count, signature support, fault token(s) incl. target element and malformation kind, outcome); distinct by that tuple; non-trivial iff the delivered bytes differ from the bytes written";
         s.batches.push_back(mk("wkd", 80, {"A/bmi2-adx", "B/portable64"}, "single", {{"hopenum", 1}, {"stride", q ? 5 : 1}}, "enumeration: every embedded element x every invalid-encoding kind, truncation lengths (every length in thorough, every 5th in quick), extensions, byte flips, junk buffers; 5 object kinds x 2 forms x validating/not x 4 shapes"));
         s.batches.push_back(mk("wkd", q ? 64 : 6000, FAST, "single", {{"focus", 15}}, "histories with marshalling hops and restarts in between the scheme operations"));
+        s.batches.push_back(mk("lq", 8, {"A/bmi2-adx", "B/portable64"}, "single", {{"hopenum", 1}}, "LQ-IBE objects: every embedded element x every invalid-encoding kind, both forms, validating and not"));
+        s.batches.push_back(mk("lq", q ? 48 : 4000, FAST, "single", {}, "LQ-IBE histories with marshalling hops"));
         if (prop == "C17") {
+            s.batches.push_back(mk("sample", q ? 32 : 2000, ALL, "single", {}, "samplers, hashing, target-group operations under ASan+UBSan"));
             s.batches.push_back(mk("wkd", q ? 48 : 4000, ALL, "single", {{"focus", 0}}, "every API call sequence of the WKD-IBE properties under ASan+UBSan"));
             s.batches.push_back(mk("enc", q ? 32 : 2000, ALL, "single", {}, "point decode of damaged bytes under ASan+UBSan"));
         }
+        return true;
+    }
+    if (prop == "C10" || prop == "C07") {
+        int focus = atoi(prop.c_str() + 1);
+        s.rule = prop == "C10"
+            ? "case = one sampler / hash call under a scripted-or-fair random stream: (entry point, number of rejected candidates (capped), skipped hash-to-curve candidates, boundary class of the input); distinct by that tuple; non-trivial iff at least one stream fault fired or at least one candidate was rejected/skipped"
+            : "case = one target-group operation: (entry point, exponent class or number of rejections); non-trivial iff the exponent came from a faulted stream or is >= r";
+        s.batches.push_back(mk("sample", q ? 400 : 40000, FAST, "single", {{"focus", focus}}, "stream faults: rejection storms, boundary candidates (modulus-1, modulus, modulus+1, 0, masked-bit variants), digit = |x|-1 / |x|, tuples recombining to r-1, r, r+1, constant bytes, sign bytes"));
+        s.batches.push_back(mk("sample", q ? 40 : 2000, {"C/portable32"}, "single", {{"focus", focus}}, "32-bit words: the exponent decomposition uses a hand-written long division there"));
+        s.batches.push_back(mk("sample", q ? 40 : 1500, ALL, "crossrep", {{"focus", focus}}, "platform independence: identical results and identical stream consumption on every replica"));
+        return true;
+    }
+    if (prop == "C16") {
+        s.rule = "case = one LQ-IBE interaction: (op, requested key length, master scalar >= r?, negative variant: other identity / other master / substituted ciphertext / damaged ciphertext read without validation / marshalling hop, stream faults attached); non-trivial iff a fault or negative variant is involved or the master scalar is unreduced";
+        s.batches.push_back(mk("lq", q ? 400 : 40000, FAST, "single", {}, "PKG, sender and receiver on a seed-chosen replica and view; master scalar delivered through the store with bit flips"));
+        s.batches.push_back(mk("lq", q ? 32 : 1500, {"C/portable32"}, "single", {}, "32-bit words"));
+        s.batches.push_back(mk("lq", q ? 32 : 1500, ALL, "crossrep", {}, "sender and receiver built with different back ends hash identical bytes"));
         return true;
     }
     err = "no check registered for property " + prop;
